@@ -147,13 +147,16 @@ def run(tier, seed):
     # ---- 2. artefact comparison on the working tree (performed on a scratch copy) ---------------------
     scratch = make_scratch()
     try:
+        if C.SHIPPED_PARSETAB is not None:      # the file as shipped (an earlier use of the library may have regenerated the working-tree copy)
+            with open(os.path.join(scratch, "simple_ddl_parser", "parsetab.py"), "w") as f:
+                f.write(C.SHIPPED_PARSETAB)
         p = py_in(scratch, ARTEFACT_SRC)
         if p.returncode != 0:
             V.mismatch({"problem": "library cannot build its parser from the working tree's grammar", "stderr": p.stderr[-800:]})
             art = {}
         else:
             art = json.loads(p.stdout)
-            shipped = open(os.path.join(C.REPO, "simple_ddl_parser", "parsetab.py")).read()
+            shipped = C.SHIPPED_PARSETAB if C.SHIPPED_PARSETAB is not None else open(os.path.join(C.REPO, "simple_ddl_parser", "parsetab.py")).read()
             ns = {}
             exec(shipped, ns)
             art["shipped_signature_matches_grammar"] = ns.get("_lr_signature") == art["grammar_signature"]
